@@ -25,7 +25,7 @@ import z3
 from . import models
 from .engine import Frame, ProgExc, Unsupported
 from .loops import havoc_value
-from .values import Iter, Obj, Opaque, PDict, PList, SArr, Sym, fresh, fresh_name, kind_of, next_uid, to_z3, zint
+from .values import Iter, Obj, Opaque, PList, SArr, Sym, fresh, fresh_name, kind_of, next_uid, to_z3, zint
 
 _I, _B = z3.IntSort(), z3.BoolSort()
 
@@ -197,6 +197,8 @@ def arbitrary_item(eng, seq, label, vars, requires, ensures, extra_state=(), kna
 
     if not isinstance(seq, LazySeq):
         raise Unsupported("item rule: the carrier did not return a lazy iterator")
+    eng.assumptions.add("rule: item rule for a returned lazy iterator (item k is produced by running the real element expression on an arbitrary "
+                        "state satisfying the object invariant, which every method of the class is proved to keep; pyvc/ext_C19.py)")
     values = list(seq.effects()) + list(extra_state)
 
     def body():
@@ -236,6 +238,7 @@ def consume(eng, seq, label, vars, invariant, body, state=(), kname="_k"):
     if seq.consumed:
         raise Unsupported("a generator is consumed a second time")
     seq.consumed = True
+    eng.assumptions.add("rule: consumer rule for a lazy iterator = the loop-invariant rule applied to the consuming loop (entry / preserved obligations; pyvc/ext_C19.py)")
     values = list(seq.effects()) + list(state)
     v = dict(vars)
     v[kname] = 0
